@@ -1453,6 +1453,18 @@ class Interp:
                 cenv.locals[g.target.id] = x
                 vals.append(self.eval(e.args[0].elt, cenv))
             return self.call(fn, [vals], {}, e, env)
+        if fn is _NULLFN:
+            # logger / progress-banner call: its arguments only describe the message (A-LOG: effect-free, do not raise); an
+            # argument outside the modelled subset (e.g. Path.name) must not make the function undecidable
+            self.used_models.add("A-LOG: logger calls are effect-free and do not raise")
+            for a in list(e.args) + [k.value for k in e.keywords]:
+                cp = self.ctx.checkpoint()
+                try:
+                    self.eval(a.value if isinstance(a, ast.Starred) else a, env)
+                    self.ctx.commit(cp)
+                except (Unsupported, PyRaise):
+                    self.ctx.rollback(cp)
+            return None
         args = []
         for a in e.args:
             if isinstance(a, ast.Starred):
